@@ -19,6 +19,7 @@ EXPLANATION = (
     "errors reset; R7 subscriber isolation in the three _notify_subscribers (every callback result awaited inside a try whose catch-all handler "
     "neither re-raises nor leaves the loop); R8 sole owners of open_connection / reader / writer; R9 connection-state coherence: a forward dataflow over every method of the socket class with the abstract state (is_connected, writer present) shows that at every suspension point and at every exit `is_connected` holds exactly when a writer is stored (otherwise another task runs in a window where a send writes to no stream and is dropped, or a connect attempt passes the guard while the old stream is still held and is then orphaned). Liveness and real interleavings are not "
     "decided."
+    " Added later: R1 also demands that the 'closed locally' exemption covers end-of-stream only and that the read loop is left normally only when the reader is gone; R10 (C01.R1 re-used) a message is out of the queue before the attempt to write it."
 )
 ASSUMPTIONS = [
     "library calls in the frozen no-raise table of sa/effects.py do not raise (logging, loop.time/create_task, set/deque ops, StreamWriter.write/close/is_closing)",
